@@ -84,6 +84,8 @@ structure Sem where
   real : Scanner → Bool
   coal : Eco → List LayerArts → Body
   merge : List Body → Body
+  /-- ecosystems whose coalescer is the real built-in one (whiteout): no fault point inside -/
+  realEco : Eco → Bool := fun _ => false
 
 /-! ## Faults -/
 
@@ -454,10 +456,27 @@ def gatherAll (sem : Sem) (o : Oracle) (m : Manifest) : List Eco → W → W × 
       | (w, .error c) => (w, .error c)
       | (w, .ok r) => (w, .ok (sem.coal eco arts :: r))
 
+/-- coalesce.go `g.Wait()`: the ecosystems' `Coalescer.Coalesce` calls, which run
+    in goroutines next to the store queries above. The model (and the harness'
+    stub coalescers) take the schedule in which every coalescer finishes after
+    the last store query, in ecosystem order; each is a numbered call (letter
+    `C`); the first error is what `g.Wait` returns, the errgroup cancels the
+    others (they are not numbered any more). -/
+def coalCalls (sem : Sem) (o : Oracle) : List Eco → W → W × Option ErrClass
+  | [], w => (w, none)
+  | eco :: ecos, w =>
+    if sem.realEco eco then coalCalls sem o ecos w else
+    match readCall o 'C' w with
+    | (w, some c) => (w, some c)
+    | (w, none) => coalCalls sem o ecos w
+
 def coalesce (sem : Sem) (o : Oracle) (cfg : Cfg) (m : Manifest) (w : W) (c : Ctl) : StateRet :=
   match gatherAll sem o m cfg w with
   | (w, .error cl) => (w, c, .terminal, some cl)
-  | (w, .ok bodies) => (w, { c with report := { c.report with body := sem.merge bodies } }, .indexManifest, none)
+  | (w, .ok bodies) =>
+    match coalCalls sem o cfg w with
+    | (w, some cl) => (w, c, .terminal, some cl)
+    | (w, none) => (w, { c with report := { c.report with body := sem.merge bodies } }, .indexManifest, none)
 
 def indexManifest (o : Oracle) (m : Manifest) (w : W) (c : Ctl) : StateRet :=
   match w.call o 'X' with
